@@ -35,8 +35,9 @@
      lcs criterion  [k, ids]          "list" with a non-empty ids: holds iff lc is a member; empty list = no criterion
      Match(f, m) == f.enabled /\ (Crit(f, m) # f.not);  apid/ctid/type/level criteria never hold without ext.
 
-   FRONT-ENDS (Expressible(fe, f)): json / jsona (JSON with / without explicit ...IsRegex keys), dlf / dlfa (dlt-viewer
-   DLF with / without enableregexp_Appid/_Context), conv (dlt-convert "APID CTID " list), eac (ECU:APID:CTID), api
+   FRONT-ENDS (Expressible(fe, f)): json / jsona (JSON with / without explicit ...IsRegex keys), dlf (dlt-viewer DLF, the
+   filter alone in its file with every element written), dlfa (DLF with only the elements of the specified criteria and
+   without enableregexp_Appid/_Context, as a later filter of a file that starts with other, fully specified filters), conv (dlt-convert "APID CTID " list), eac (ECU:APID:CTID), api
    (Filter::new + public fields).  Every front-end that can express f must build a filter deciding Match(f, .).
 
    This module has no constants and no variables (it is EXTENDed by FilterTrace, FilterSet and spec/mc/MCFilter.tla,
@@ -160,7 +161,7 @@ Expressible(fe, f) ==
                          /\ NonEmptySyn(f.apid) /\ NonEmptySyn(f.ctid)
       [] fe = "dlfa"  -> /\ ~f.not /\ f.lcs.k = "none" /\ f.ecu.k \in {"none", "lit"}
                          /\ (f.type.k = "none" \/ (f.type.k = "mstp" /\ f.type.v = 3))
-                         /\ (f.apid.k # "none" \/ f.ctid.k # "none") /\ AutoOk(f.apid) /\ AutoOk(f.ctid)
+                         /\ AutoOk(f.apid) /\ AutoOk(f.ctid)
       [] fe = "conv"  -> /\ f.enabled /\ ~f.not /\ f.kind = 0 /\ OnlyIds(f) /\ f.ecu.k = "none"
                          /\ f.apid.k = "lit" /\ Len(f.apid.w) <= 4 /\ f.ctid.k = "lit" /\ Len(f.ctid.w) <= 4
       [] fe = "eac"   -> /\ f.enabled /\ ~f.not /\ f.kind = 0 /\ OnlyIds(f) /\ SomeId(f)
